@@ -6,6 +6,7 @@ Case lines (a history is bracketed by `begin…`/`end`):
   beginj <origin> <rec>*          same, then `persist_to_journal` into an empty journal
   upd P <rec>* U <rec>*           verify_prerequisites → pre_scan → update_records(.., true)
   updf P <rec>* U <rec>*          the same message, TSIG-signed on the wire, through ZoneHandler::update
+  updc ok|unsigned P.. U..        … through Catalog::handle_request (other kinds and `begind` histories: no model side)
   raw <rec>*                      update_records(.., true) alone (no prescan)
   pre <rec>*                      verify_prerequisites alone
   cut <k>                         recover a fresh handler from the first k journal rows
@@ -123,6 +124,30 @@ def step (s : State) (toks : List String) : State × String :=
         let r := updateJ s.cfg s.zone s.journal { prereqs := p, updates := u }
         let s' := { s with zone := r.1, journal := if s.journaled then r.2.1 else [] }
         (s', "full " ++ showRes r.2.2.2 ++ " " ++ tail s')
+      | _, _ => (s, "bad-op")
+  | "updc" :: "ok" :: rest =>
+    -- the same message through the server's dispatch (`Catalog::update`): the rcode of the response
+    match splitPU rest with
+    | none => (s, "bad-op")
+    | some (p, u) =>
+      match p.mapM parseRec, u.mapM parseRec with
+      | some p, some u =>
+        let r := updateJ s.cfg s.zone s.journal { prereqs := p, updates := u }
+        let s' := { s with zone := r.1, journal := if s.journaled then r.2.1 else [] }
+        let rc := match r.2.2.2 with
+          | .ok _ => "NOERROR"
+          | x => showRes x
+        (s', "cat " ++ rc ++ " " ++ tail s')
+      | _, _ => (s, "bad-op")
+  | "updc" :: "unsigned" :: rest =>
+    -- no TSIG: `authorize_update` refuses before anything is looked at
+    match splitPU rest with
+    | none => (s, "bad-op")
+    | some (p, u) =>
+      match p.mapM parseRec, u.mapM parseRec with
+      | some p, some u =>
+        let r := update s.cfg false s.zone { prereqs := p, updates := u }
+        (s, "cat " ++ showRes r.2.2.1 ++ " " ++ tail s)
       | _, _ => (s, "bad-op")
   | "raw" :: recs =>
     match recs.mapM parseRec with
